@@ -18,7 +18,7 @@ MANIFEST = {
     'technique': 'Lean 4 proof: LFSR invariant by induction over the message from kernel-evaluated generator facts for all 67 coders; translator-regenerated taps',
     'text': ('QRV/Props/C13.lean proves for every n in 2..68 and every message (unbounded length, any chunking): the coder\'s taps are the logs of the coefficients of '
              'g_n = prod (x - a^i) computed from the definition (kernel evaluation), the register invariant eval(state, a^i) = eval(message, a^i), hence message ++ parity '
-             'vanishes at a^0..a^(n-1); chunking independence, leading zeros, New range; and (C13Unique.lean, parity_unique) for every block of at most 255 bytes the parity is the ONLY n-byte tail with those n roots, from the minimum distance n+1 of the code (Mathlib Field instance, proof-only modules) - so the emitted bytes are exactly the stated remainder. The coders are tied to the source by the translator (template match of every '
+             'vanishes at a^0..a^(n-1); chunking independence, leading zeros, New range; and (C13Unique.lean, parity_unique) for every block of at most 255 bytes the parity is the ONLY n-byte tail with those n roots, from the minimum distance n+1 of the code (Mathlib Field instance, proof-only modules) - so the emitted bytes are exactly the stated remainder; encode_damage_decode joins the encoder model to the decoder model of C14: message ++ parity is restored from every word with at most floor(n/2) damaged bytes. The coders are tied to the source by the translator (template match of every '
              'generated function, constants extracted) on every run, and the model by differential runs.'),
     'note': ('Trusted: Lean kernel; Mathlib polynomial algebra in proof-only modules (parity_unique only, through C14Complete); translator template matcher; Model/RS.lean step function (tied by correspondence); Sum\'s value receiver is a matched-template fact, '
              'its purity is additionally exercised by the harness (Sum mid-stream, Sum twice, Reset).'),
